@@ -259,6 +259,112 @@ def csr_cases(ctx, ncases, sparse, use_l):
     return dis, spec_fail
 
 
+def index_wiring(ctx, nsets):
+    """the property at NNDescent._search_graph: the index hands its diversify_prob to all four passes (dense / sparse x forward /
+    reverse).  The neighbour graph of a built index is replaced by the exact brute-force graph (so that the dense and the sparse index
+    prune the same rows), the search graph is rebuilt, and its edge set is compared with
+      probability 0 : the symmetrised neighbour graph (nothing removed),
+      probability 1 : the greedy specification applied forward and then to the reversed graph (skipped when a row has tied
+                      distances: the order of ties is not specified), and dense = sparse in every case."""
+    import scipy.sparse as sps
+    from pynndescent import NNDescent
+    rng = ctx.rng
+    bad = {}
+    done = 0
+    ambiguous = 0
+
+    def edges(m):
+        m = m.tocoo()
+        return set((int(a), int(b)) for a, b, v in zip(m.row, m.col, m.data) if v != 0 and a != b)
+
+    for t in range(nsets):
+        n, k = rng.choice([(60, 5), (90, 6), (120, 8)])
+        rs = np.random.RandomState(rng.randrange(10 ** 6))
+        X = rs.randint(0, 400, size=(n, 3)).astype(np.float32)
+        if t % 3 == 2:
+            X[n // 2:n // 2 + 6] = X[:6]            # exact duplicates (zero-distance neighbours)
+        X[:, 0] += 1.0                               # no all-zero row (CSR rows never empty)
+        D = ((X[:, None, :].astype(np.float64) - X[None, :, :]) ** 2).sum(-1)     # exact: squared euclidean of small integers
+        order = np.argsort(D + np.eye(n) * -1.0, axis=1, kind="stable")[:, :k]
+        knn_i = order.astype(np.int32)
+        knn_d = np.take_along_axis(D, order, axis=1).astype(np.float32)
+        dfun = lambda a, b: float(D[a, b])
+        graphs = {}
+        for prob in (0.0, 1.0):
+            for kind in ("dense", "sparse"):
+                for compressed in ((False, True) if prob == 0.0 else (False,)):
+                    data = X if kind == "dense" else sps.csr_matrix(X)
+                    try:
+                        idx = NNDescent(data, metric="euclidean", n_neighbors=k, tree_init=False, diversify_prob=prob,
+                                        pruning_degree_multiplier=100.0, random_state=7, compressed=compressed, n_jobs=1)
+                        idx._neighbor_graph = (knn_i.copy(), knn_d.copy())
+                        for a in ("_search_graph", "_search_function", "_vertex_order"):
+                            if hasattr(idx, a):
+                                delattr(idx, a)
+                        idx._init_search_graph()
+                        g = idx._search_graph
+                        vo = np.asarray(idx._vertex_order)
+                        got = set((int(vo[a]), int(vo[b])) for (a, b) in edges(g))
+                    except Exception as e:
+                        key = "index-wiring-raises:%s" % kind
+                        if key not in bad:
+                            bad[key] = 1
+                            ctx.violation(key, "building the search graph of a %s index with diversify_prob=%r raises %s" % (kind, prob, type(e).__name__),
+                                          dict(kind=kind, diversify_prob=prob, error=str(e)[:300], data=X.tolist()), True)
+                        continue
+                    graphs[(prob, kind, compressed)] = got
+                    done += 1
+        base = set((i, int(j)) for i in range(n) for j in knn_i[i] if int(j) != i)
+        sym = base | set((b, a) for (a, b) in base)
+        # specification for probability 1
+        tied = False
+        fwd = set()
+        for i in range(n):
+            cands = [(int(j), float(knn_d[i, c])) for c, j in enumerate(knn_i[i])]
+            ds = [d for _, d in cands]
+            if len(set(ds)) < len(ds) or any(dfun(a, b) == db for (a, da) in cands for (b, db) in cands if a != b):
+                tied = True
+            fl = spec_flags(cands, dfun)
+            fwd |= set((i, j) for (j, d), f in zip(cands, fl) if f and j != i)
+        rev = set()
+        for i in range(n):
+            inc = sorted([(max(float(D[j, i]), EPS), j) for (j, t2) in fwd if t2 == i])
+            cands = [(j, d) for d, j in inc]
+            ds = [d for _, d in cands]
+            if len(set(ds)) < len(ds) or any(dfun(a, b) == db for (a, da) in cands for (b, db) in cands if a != b):
+                tied = True
+            fl = spec_flags(cands, dfun)
+            rev |= set((i, j) for (j, d), f in zip(cands, fl) if f)
+        spec1 = fwd | rev
+        ambiguous += tied
+
+        def report(key, what, got, want, extra):
+            if key in bad:
+                bad[key] += 1
+                return
+            bad[key] = 1
+            miss = sorted(want - got)[:8]
+            add = sorted(got - want)[:8]
+            ctx.violation(key, "%s: %d edges missing (e.g. %s), %d extra (e.g. %s)" % (what, len(want - got), miss[:3], len(got - want), add[:3]),
+                          dict(data=X.tolist(), n_neighbors=k, missing=miss, extra=add, **extra), True)
+        for (prob, kind, compressed), got in graphs.items():
+            if prob == 0.0 and got != sym:
+                report("index-prob0:%s" % kind, "%s index (compressed=%s) with diversify_prob=0: the search graph is not the symmetrised neighbour graph "
+                       "(probability 0 must remove nothing)" % (kind, compressed), got, sym, dict(kind=kind, diversify_prob=0.0, compressed=compressed))
+            if prob == 1.0 and not tied and got != spec1:
+                report("index-prob1:%s" % kind, "%s index with diversify_prob=1: the search graph differs from the forward + reverse specification" % kind,
+                       got, spec1, dict(kind=kind, diversify_prob=1.0))
+        for prob in (0.0, 1.0):
+            a, b = graphs.get((prob, "dense", False)), graphs.get((prob, "sparse", False))
+            if a is not None and b is not None and a != b:
+                report("index-dense-vs-sparse:%s" % prob, "dense and sparse index with diversify_prob=%r keep different edges on the same neighbour graph" % prob,
+                       a, b, dict(diversify_prob=prob))
+        ctx.nontrivial.add(("wiring", t))
+    ctx.count(done)
+    ctx.sample(dict(stream="index-wiring", sets=nsets))
+    ctx.stream("index-wiring", datasets=nsets, search_graphs_built=done, datasets_with_tied_rows_skipped_for_prob1_spec=ambiguous, problems=bad)
+
+
 def run(ctx):
     global EPS_KEY
     EPS_KEY = common.key_of_float(EPS)
@@ -297,5 +403,6 @@ def run(ctx):
         d_false, _ = csr_cases(probe2, max(40, nc // 3), False, False)
         ctx.notes["dense_diversify_csr_compares_with"] = "current_indices[k] (pinned variant)" if d_false == 0 else "neither model variant"
         csr_cases(ctx, nc, False, d_false != 0)
+    index_wiring(ctx, ctx.budget(3, 12))
     if not changed and unknown:
         common.update_sentinels(cur)
